@@ -66,6 +66,8 @@ def inv_items(props, tier):
     for kind in ('tag', 'event', 'dep', 'cache'):
         for name in NAMES:
             out.append(dict(kind='inv', mode='group', kind2=kind, name=name, props=list(props)))
+    for kind, name in [('tag', 't1'), ('tag', 't2'), ('event', 'e1'), ('dep', 'g_tag1'), ('dep', 'custom_g'), ('cache', 'g_tag1'), ('cache', 'custom_a')]:
+        out.append(dict(kind='inv', mode='group', kind2=kind, name=name, repeat=True, props=list(props)))
     for kind, name, unused in [('tag', 't1', ['g_tag1']), ('tag', 't1', ['a_tag1_ev1', 'g_tag12']), ('dep', 'g_tag1', ['a_dep_tag2']), ('cache', 'custom_g', ['g_named']),
                                ('event', 'e1', ['g_ev1']), ('tag', 't2', ['g_tag1', 'a_dep_tag2'])]:
         out.append(dict(kind='inv', mode='group', kind2=kind, name=name, unused=unused, props=list(props)))
@@ -106,6 +108,30 @@ def conc_items(props, tier, want=None):
     return out
 
 
+def key_items(props, tier):
+    from .wrap import subjects
+    out = []
+    for name, r in subjects().items():
+        if r['group'] in ('key', 'method', 'sig') or name in ('g_plain', 't_plain', 'a_plain', 'g_res', 'a_res', 'g_cif', 'a_inv', 't_mem1kb'):
+            out.append(dict(kind='keys', subject=name, maxlen=8 if tier == 'quick' else 10, props=list(props)))
+    return out
+
+
+def susp_items(props, tier):
+    from .wrap import subjects
+    out = []
+    for name, r in subjects().items():
+        if r['group'] != 'gate': continue
+        inters = ['none', 'call_same', 'call_other', 'call_fill', 'inv_cache', 'inv_with'] + (['inv_tag'] if r['intended']['tags'] else [])
+        for g in range(r['gates']):
+            for inter in inters:
+                for end in ('resume', 'drop'):
+                    for nf in ((1,) if tier == 'quick' else (0, 1, 2)):
+                        if nf == 0 and inter == 'call_fill': continue
+                        out.append(dict(kind='susp', subject=name, suspend_at=g, inter=inter, end=end, nfill=nf, props=list(props)))
+    return out
+
+
 def items_for(prop, tier):
     p = prop
     if p == 'C01': return step_items(['C01'], tier) + wrap_items(['C01'], tier, second=(False, True))
@@ -123,6 +149,8 @@ def items_for(prop, tier):
     if p == 'C09': return wrap_items(['C09'], tier, pred=lambda r: r['intended']['result'], second=(False, True))
     if p == 'C10': return wrap_items(['C10'], tier, pred=lambda r: r['intended']['cache_if'] or r['group'] in ('plain', 'res'), second=(False,))
     if p == 'C11': return wrap_items(['C11'], tier, pred=lambda r: r['intended']['invalidate_on'] or r['group'] in ('plain',), second=(False, True))
+    if p == 'C02': return key_items(['C02'], tier) + wrap_items(['C02'], tier, pred=lambda r: r['group'] in ('sig', 'method', 'plain'))
+    if p == 'C20': return susp_items(['C20'], tier)
     if p in ('C17', 'C18'): return conc_items([p], tier)
     if p in ('C12', 'C13'): return inv_items([p], tier)
     if p == 'C14': return wrap_items(['C14'], tier, pred=lambda r: r['group'] in ('cfg', 'plain', 'sig', 'method', 'meta', 'mem'), patterns=('same', 'other-thread'))
